@@ -75,6 +75,10 @@ class IntervalInterp:
         env = {}
         for a in fnode.args.args + fnode.args.kwonlyargs:
             env[a.arg] = AV()
+        for a, d in zip(fnode.args.kwonlyargs, fnode.args.kw_defaults):
+            # keyword-only options keep their default (the documented calls do not pass them)
+            if isinstance(d, ast.Constant):
+                env[a.arg] = AV(kind="none") if d.value is None else self.ev(d, env)
         self.block(fnode.body, env)
         return env
 
@@ -105,6 +109,8 @@ class IntervalInterp:
             self.bind(s.target, v, env)
         elif isinstance(s, ast.Expr):
             self.ev(s.value, env)
+        elif isinstance(s, ast.If) and self._none_test(s.test, env) is not None:
+            self.block(s.body if self._none_test(s.test, env) else s.orelse, env)
         elif isinstance(s, ast.If):
             e1, e2 = dict(env), dict(env)
             self.refine(s.test, e1, True)
@@ -162,6 +168,15 @@ class IntervalInterp:
             env.update(base)
         elif isinstance(s, ast.With):
             self.block(s.body, env)
+
+    def _none_test(self, test, env):
+        """`x is None` / `x is not None` for a local known to hold None (an option left at its None default)"""
+        if isinstance(test, ast.Compare) and len(test.ops) == 1 and isinstance(test.ops[0], (ast.Is, ast.IsNot)) and isinstance(test.left, ast.Name) \
+                and isinstance(test.comparators[0], ast.Constant) and test.comparators[0].value is None:
+            v = env.get(test.left.id)
+            if isinstance(v, AV) and v.kind == "none":
+                return isinstance(test.ops[0], ast.Is)
+        return None
 
     def merge(self, env, e1, e2):
         d1, d2 = e1.get("__dead__"), e2.get("__dead__")
@@ -451,6 +466,10 @@ class IntervalInterp:
                 senv[p_] = self.ev(a, env)
             sub.fname = callee.name
             sub.block(callee.body, senv)
+            # commands sent by the helper are sent with the caller's values
+            self.sites.extend(sub.sites)
+            self.fmt_issues.extend(sub.fmt_issues)
+            self.branch_info.extend(sub.branch_info)
             if sub.returns:
                 out = sub.returns[0]
                 for r in sub.returns[1:]:
